@@ -874,17 +874,17 @@ LEVEL_TEXT = ("Machine-checked theorems (Coq 8.16, closed under the global conte
               "exactly when the command does not declare the requiredness (witness: required = false on a plain field); and "
               "for every well-formed invocation of the update command of a struct of argument fields, a field whose argument "
               "has no default and no occurrence ON THE LINE keeps its value under try_update_from; the command-line phase accepts "
-              "the printed line when every printed group passes the built argument's own count check and value parser.  The model is tied to clap_derive by compiling a corpus spanning the shape x kind x type x "
+              "the printed line when every printed group passes the built argument's own count check and value parser.  Round 3: the phases after the token loop accept that state -- the defaults phase succeeds (any command whose defaults pass their value parser), the validator is complete for commands without relations (any command of class norel, through C03's static completeness), hence parse(print v) = Ok v as an EQUALITY (derived_parse d (bin :: print d v) = PValue v) for structs of option fields whose required fields are printed; and for ALL argv: a walk of get_matches_with parametric in the state predicate, the invariant that stored value groups are non-empty (any command), hence extraction cannot fail after a successful command parse and try_parse succeeds <=> the command's parse succeeds, for every struct of argument fields (options and positionals) and flattened structs (any nesting, optional or not; generated command in closed form) in which each plain field is required or has a default (through C04's typed invariant, C03's validator soundness and C06's precedence); and for every token list, a field whose argument has no default and is named by no token (C10's occurs: key-map selection) keeps its value under try_update_from; the generated command of any struct of fields and flattened structs, positionals included, lies in C02's class conv and its key map is the derive input's (the k-th positional field in declaration order resolves from index k); and parse(print v) = Ok v as an equality for structs of positional fields (T, Option<T>, a last Vec<T>; the line `-- v1 v2 ..` through C02's trailing-values theorem) when an absent positional is followed only by absent ones.  The model is tied to clap_derive by compiling a corpus spanning the shape x kind x type x "
               "attribute matrix with the real macro and comparing command dumps, parses, round trips, update sequences "
               "and value-enum lookups against the extracted model (which runs on top of the parser model) on every check; "
               "an independent python oracle checks the property's statements on the implementation's output.")
 LEVEL_NOTE = ("Partial: the macro runs inside rustc, so the tie is its expansion on the corpus; attribute parsing and casing "
               "are covered differentially only.  The round trip through the parser is proved as soundness (the command accepts "
-              "the printed line => the value comes back) for structs of option fields; acceptance is proved for the command-line "
-              "phase only (every react succeeds), not for the default and validation phases; positionals after --, flattened structs and "
-              "subcommand enums, and 'extraction cannot fail after a successful parse' for arbitrary argv (needs a whole-loop "
-              "invariant on stored values that the parser proofs do not provide yet) stay checked executably on every "
-              "dround / dparse case.  Four families where the unchanged "
+              "the printed line => the value comes back) and, round 3, as the equality parse(print v) = Ok v for structs of option fields "
+              "(class: attribute combinations of the matches-level round trip, value ranges that admit the printed group lengths, required fields printed; the scalar print/parse inversion is proved for every element type, i64 decimal included); structs mixing options and positionals, flattened structs and "
+              "subcommand enums in the composed round trip, and 'extraction cannot fail after a successful parse' / the update statement below subcommand "
+              "nodes (both proved for all argv for structs of argument fields and flattened structs) stay checked executably on every "
+              "dround / dparse / dupdate case.  Four families where the unchanged "
               "code violates the property are recorded as known findings (update resets default-bearing fields; update "
               "materialises a None optional flatten; an optional flatten with a required member cannot be None; an optional "
               "flatten of a struct that itself flattens is always None).")
